@@ -858,19 +858,25 @@ def check_merge_case(ctx, spec, report=True):
                 else:
                     cls = "wrong-block-content"
                 sig = "gaussian_merge:%s:%s" % (fam, cls)
-                nodag = [[n_, p_, ms_, (d_ if n_ in NONGAUSS else False)] for n_, p_, ms_, d_ in dec]
-                if any(c[3] for c in dec if c[0] not in NONGAUSS) and channels_close(hybrid_channel(nodag, used), dst, 1e-6):
-                    sig = "gaussian_merge:dagger-ignored"
-                    cls = "dagger flags of Gaussian gates dropped (inherited from GaussianUnitary.compile)"
-                elif used != list(range(len(used))) and spec.get("_relabelled") is None:
-                    # does the failure disappear under an order-preserving relabelling to 0..k-1?  then it is
-                    # the index-value (set order) defect inherited from GaussianUnitary.compile
-                    mp = {m: i for i, m in enumerate(used)}
-                    s2 = {"N": len(used), "_relabelled": True,
-                          "cmds": [[n_, p_, [mp[m] for m in ms_], d_] for n_, p_, ms_, d_ in spec["cmds"]]}
-                    if check_merge_case(ctx, s2, report=False)[0] is None:
-                        sig = "gaussian_merge:set-order"
-                        cls = "set-order (inherited from GaussianUnitary.compile)"
+                if not spec.get("_variant"):
+                    # conditional attribution to the two defects inherited from GaussianUnitary.compile: does the
+                    # failure disappear under an order-preserving relabelling to 0..k-1 (set order), after
+                    # stripping the dagger flags of Gaussian gates (dagger ignored), or both?
+                    mp = {m: i_ for i_, m in enumerate(used)}
+                    def variant(relabel, strip):
+                        return {"N": len(used) if relabel else spec["N"], "_variant": True,
+                                "cmds": [[n_, p_, [mp[m] for m in ms_] if relabel else ms_, (d_ if (n_ in NONGAUSS or not strip) else False)]
+                                         for n_, p_, ms_, d_ in spec["cmds"]]}
+                    has_dag = any(c[3] for c in spec["cmds"] if c[0] not in NONGAUSS)
+                    unsorted = used != list(range(len(used)))
+                    # (a variant that runs into the identity-block IndexError cannot show the wrong action any more)
+                    okv = lambda r_, s_: check_merge_case(ctx, variant(r_, s_), report=False)[0] in (None, "gaussian_merge:crash:IndexError@merge_a_gaussian_op")
+                    if unsorted and okv(True, False):
+                        sig, cls = "gaussian_merge:set-order", "set order (inherited from GaussianUnitary.compile)"
+                    elif has_dag and okv(False, True):
+                        sig, cls = "gaussian_merge:dagger-ignored", "dagger flags of merged Gaussian gates dropped (inherited)"
+                    elif unsorted and has_dag and okv(True, True):
+                        sig, cls = "gaussian_merge:set-order+dagger-ignored", "set order and dropped dagger flags (both inherited)"
                 text = ("compiled hybrid circuit is not equivalent to the source (non-Gaussian gates replaced by generic "
                         "stand-ins; channel distance %.3g); class %s" % (channel_dist(src, dst), cls))
     if sig and sig.startswith("gaussian_merge:crash"):
@@ -898,8 +904,13 @@ def fock_differs(spec, cutoff=9):
     used = used_modes_of(s["cmds"])
     if len(used) > 3 or any(isinstance(p, dict) for c in s["cmds"] for p in c[1]):
         return None
-    mp = {m: i for i, m in enumerate(used)}
-    s = {"N": len(used), "cmds": [[n, p, [mp[m] for m in ms], d] for n, p, ms, d in s["cmds"]]}
+    if max(used) > 3:
+        return None  # index-value dependent behaviour cannot be reproduced on a small Fock register
+    nm = max(used) + 1
+    if nm > 3:
+        return None
+    used = list(range(nm))
+    s = {"N": nm, "cmds": s["cmds"]}
     prog = build_program(s)
     try:
         with warnings.catch_warnings():
@@ -1046,12 +1057,6 @@ def search(ctx):
             if "crash" not in sig:
                 fd = fock_differs(small)
                 ctx.notes.append("gaussian_merge %s: Fock-backend confirmation on the shrunk case: %s" % (sig, fd))
-                if fd is False:
-                    # the stand-in test flagged it but real gates agree: not a violation of the property
-                    ctx.issues[:] = [x for x in ctx.issues if x.signature != sig]
-                    found[sig] = "refuted"
-        elif sig and found.get(sig) == "refuted":
-            ctx.issues[:] = [x for x in ctx.issues if x.signature != sig]
     run_validator(ctx, vcases)
 
 
@@ -1123,9 +1128,7 @@ def replay(ctx, data):
         print("predicate:", sig, text)
         if sig and "crash" not in sig:
             fd = fock_differs(d["spec"])
-            print("Fock backend (scaled parameters) source vs compiled differ:", fd)
-            if fd is False:
-                return False
+            print("Fock backend (scaled-down parameters) source vs compiled differ:", fd)
         return bool(sig)
     if chk == "helpers":
         print("row-helper correspondence: re-run ./check C11 quick")
